@@ -21,7 +21,13 @@ private, rooted objects; everything reachable in `s` is untouched").
   `totalPreorder_int_keys` (pure; `pairwise_mergeSort_on`, `sublist_mergeSort_on` lift the core
   lemmas to comparisons that are total preorders on the elements only), `sort_spec`,
   `sort_non_table`
-* non-vacuity: `idealCallback`, `pureCallback_ideal`, evaluated runs on `demo1` / `demo2`
+* the rows a native copied are guarded while the key function runs (`guardRows es` …
+  `unguardRows es` in `callNativeBody`): `minmaxCore` / `sortCore` are the bodies without these two
+  calls, `minmaxBody_ok` / `sortBody_ok` say that the real body is `guardRows es`, the core,
+  `unguardRows es`; the `*Core_spec*` theorems are proved for the cores and lifted
+  (`Grown.rows`, `Grown.unrow`, `unrow_rowGuards` in `Lemmas/NativeLemmas.lean`: the guard list after
+  the native is EQUAL to the one before)
+* non-vacuity: `idealCallback`, `pureCallback_ideal`, evaluated runs on `demo1` / `demo2` / `demo3`
 * (d) the generated card-level wrappers, pinned by `rfl`.
 
 Not proved (no `_Full` constant: the statement needs the compiler and the reference semantics):
@@ -335,8 +341,9 @@ def mkRow (k v best : Val) : M Val := do
   unguardVal best
   return .obj row
 
-/-- the body of `__min` (`isMin = true`) and `__max` (`isMin = false`) -/
-def minmaxBody (isMin : Bool) (re : Reenter) : M Val := do
+/-- `__min` / `__max` without the guards of the copied rows: what runs between `guardRows es` and
+    `unguardRows es` (up to the place of the final `return`, see `minmaxBody_ok`) -/
+def minmaxCore (isMin : Bool) (re : Reenter) : M Val := do
   let h := (← get).heap
   let keyFn ← peek 0
   let iterable ← peek 1
@@ -352,6 +359,38 @@ def minmaxBody (isMin : Bool) (re : Reenter) : M Val := do
       let st ← forIn rest (best, 0, 1) (scanStep isMin re keyFn)
       mkRow (es.getD st.2.1 (.nil, .nil)).1 (es.getD st.2.1 (.nil, .nil)).2 st.1
 
+/-- `mkRow`, then the guards of the copied rows are released -/
+def mkRowG (es : List (Val × Val)) (k v best : Val) : M Val := do
+  let row ← initTable
+  let ks ← initString "key".toUTF8.toList
+  tableInsert row (.obj ks) k
+  dropGuard ks
+  let vs ← initString "value".toUTF8.toList
+  tableInsert row (.obj vs) v
+  dropGuard vs
+  dropGuard row
+  unguardVal best
+  unguardRows es
+  return .obj row
+
+/-- the body of `__min` (`isMin = true`) and `__max` (`isMin = false`) -/
+def minmaxBody (isMin : Bool) (re : Reenter) : M Val := do
+  let h := (← get).heap
+  let keyFn ← peek 0
+  let iterable ← peek 1
+  match isTable h iterable with
+  | none => return iterable
+  | some es =>
+    match es with
+    | [] => return .nil
+    | (k0, v0) :: rest => do
+      guardRows es
+      push v0; push k0
+      let best ← re keyFn
+      guardVal best
+      let st ← forIn rest (best, 0, 1) (scanStep isMin re keyFn)
+      mkRowG es (es.getD st.2.1 (.nil, .nil)).1 (es.getD st.2.1 (.nil, .nil)).2 st.1
+
 theorem callNativeBody_min (re : Reenter) : callNativeBody re "__min" = minmaxBody true re := by
   unfold callNativeBody
   simp (config := { decide := true }) only []
@@ -364,6 +403,48 @@ theorem callNativeBody_max (re : Reenter) : callNativeBody re "__max" = minmaxBo
 theorem go_callKV_bind {β : Type} (re : Reenter) (f k v : Val) (g : Val → M β) (t : VmState) :
     (push v >>= fun _ => push k >>= fun _ => re f >>= g).go t = (callKV re f k v >>= g).go t := by
   simp [callKV, bind_assoc]
+
+/-- `mkRowG es` is `mkRow` followed by `unguardRows es` -/
+theorem mkRowG_ok {es : List (Val × Val)} {k v best r : Val} {t t' : VmState}
+    (hok : (mkRowG es k v best).go t = (.ok r, t')) :
+    ∃ t₁, (mkRow k v best).go t = (.ok r, t₁) ∧ t' = { t₁ with guards := unrow es t₁.guards } := by
+  have e : mkRowG es k v best = (mkRow k v best >>= fun r => unguardRows es >>= fun _ => pure r) := by
+    unfold mkRowG mkRow
+    simp only [bind_assoc, pure_bind]
+  rw [e] at hok
+  obtain ⟨r', t₁, h1, hok⟩ := ok_bind hok
+  rw [go_bind_ok (go_unguardRows es t₁), go_pure] at hok
+  simp only [Prod.mk.injEq, Except.ok.injEq] at hok
+  obtain ⟨rfl, rfl⟩ := hok
+  exact ⟨t₁, h1, rfl⟩
+
+/-- **the shape of `__min` / `__max` on a non-empty table**: `guardRows es`, then the scan and the
+    result row as before the rows were guarded (`minmaxCore`), then `unguardRows es` -/
+theorem minmaxBody_ok {isMin : Bool} {re : Reenter} {s s' : VmState} {r : Val} {a cap : Nat}
+    {e₀ : Val × Val} {rest : List (Val × Val)} (hit : s.stack.peekLast 1 = .obj a)
+    (ha : s.heap.get a = some (.table cap (e₀ :: rest)))
+    (hok : (minmaxBody isMin re).go s = (.ok r, s')) :
+    ∃ s₁, (minmaxCore isMin re).go { s with guards := rowGuards (e₀ :: rest) ++ s.guards } = (.ok r, s₁) ∧
+      s' = { s₁ with guards := unrow (e₀ :: rest) s₁.guards } := by
+  obtain ⟨k0, v0⟩ := e₀
+  unfold minmaxBody at hok
+  rw [go_bind_ok (go_get s), go_bind_ok (go_peek 0 s), go_bind_ok (go_peek 1 s), hit] at hok
+  simp only [isTable_of_get ha] at hok
+  rw [go_bind_ok (go_guardRows _ s)] at hok
+  obtain ⟨_, t1, h1, hok⟩ := ok_bind hok
+  obtain ⟨_, t2, h2, hok⟩ := ok_bind hok
+  obtain ⟨best, t3, h3, hok⟩ := ok_bind hok
+  obtain ⟨_, t4, h4, hok⟩ := ok_bind hok
+  obtain ⟨st, t5, h5, hok⟩ := ok_bind hok
+  obtain ⟨t6, h6, rfl⟩ := mkRowG_ok hok
+  refine ⟨t6, ?_, rfl⟩
+  unfold minmaxCore
+  rw [go_bind_ok (go_get _), go_bind_ok (go_peek 0 _), go_bind_ok (go_peek 1 _)]
+  dsimp only
+  rw [hit]
+  simp only [isTable_of_get ha]
+  rw [go_bind_ok h1, go_bind_ok h2, go_bind_ok h3, go_bind_ok h4, go_bind_ok h5]
+  exact h6
 
 theorem key_ne_value : "key".toUTF8.toList ≠ "value".toUTF8.toList := by decide +kernel
 
@@ -498,11 +579,11 @@ theorem minmax_empty (isMin : Bool) (re : Reenter) (s : VmState) {a cap : Nat}
     function `φ`: the result is a new row `{"key": kᵢ, "value": vᵢ}` where `i` is the index the
     scan `argBest` selects among the keys `φ k v` (compared by `vlt` on their deep values); the
     input table and everything else reachable before is unchanged -/
-theorem minmaxBody_spec (isMin : Bool) {re : Reenter} {φ : Val → Val → Val} {s s' : VmState}
+theorem minmaxCore_spec (isMin : Bool) {re : Reenter} {φ : Val → Val → Val} {s s' : VmState}
     {r keyFn : Val} {a cap : Nat} {e₀ : Val × Val} {rest : List (Val × Val)}
     (hf : FreshNext s.heap) (hkf : s.stack.peekLast 0 = keyFn) (hit : s.stack.peekLast 1 = .obj a)
     (ha : s.heap.get a = some (.table cap (e₀ :: rest))) (hcb : PureCallback re keyFn φ)
-    (hok : (minmaxBody isMin re).go s = (.ok r, s')) :
+    (hok : (minmaxCore isMin re).go s = (.ok r, s')) :
     let i := argBest (better isMin s.heap) (keysOf φ (e₀ :: rest))
     let e := (e₀ :: rest).getD i (.nil, .nil)
     i < (e₀ :: rest).length ∧ r = .obj s.heap.next ∧ s.heap.get s.heap.next = none ∧
@@ -513,7 +594,7 @@ theorem minmaxBody_spec (isMin : Bool) {re : Reenter} {φ : Val → Val → Val}
     s'.heap.get a = some (.table cap (e₀ :: rest)) ∧ Grown s s' ∧ s'.guards = s.guards := by
   intro i e
   obtain ⟨k0, v0⟩ := e₀
-  unfold minmaxBody at hok
+  unfold minmaxCore at hok
   rw [go_bind_ok (go_get s), go_bind_ok (go_peek 0 s), go_bind_ok (go_peek 1 s), hit, hkf] at hok
   simp only [isTable_of_get ha] at hok
   rw [go_callKV_bind] at hok
@@ -578,6 +659,30 @@ theorem minmaxBody_spec (isMin : Bool) {re : Reenter} {φ : Val → Val → Val}
       refine ⟨_, hstep.1.symm, ?_, hstep.2 ▸ hG', hstep.2 ▸ hh, hstep.2 ▸ (hgu'.trans hgu)⟩
       rw [htake, scan_snoc, ← hst, if_neg hb]
 
+
+/-- **`__min` / `__max` on a non-empty table**, for a callback that behaves like the pure
+    function `φ` (`minmaxCore_spec` between `guardRows` and `unguardRows`): the result is a new row
+    `{"key": kᵢ, "value": vᵢ}` where `i` is the index the scan `argBest` selects; the input table and
+    everything else reachable before is unchanged; the guard list is as before -/
+theorem minmaxBody_spec (isMin : Bool) {re : Reenter} {φ : Val → Val → Val} {s s' : VmState}
+    {r keyFn : Val} {a cap : Nat} {e₀ : Val × Val} {rest : List (Val × Val)}
+    (hf : FreshNext s.heap) (hkf : s.stack.peekLast 0 = keyFn) (hit : s.stack.peekLast 1 = .obj a)
+    (ha : s.heap.get a = some (.table cap (e₀ :: rest))) (hcb : PureCallback re keyFn φ)
+    (hok : (minmaxBody isMin re).go s = (.ok r, s')) :
+    let i := argBest (better isMin s.heap) (keysOf φ (e₀ :: rest))
+    let e := (e₀ :: rest).getD i (.nil, .nil)
+    i < (e₀ :: rest).length ∧ r = .obj s.heap.next ∧ s.heap.get s.heap.next = none ∧
+    (∃ cap', s'.heap.get s.heap.next =
+      some (.table cap' [(.obj (s.heap.next + 1), e.1), (.obj (s.heap.next + 2), e.2)])) ∧
+    s'.heap.get (s.heap.next + 1) = some (.str "key".toUTF8.toList) ∧
+    s'.heap.get (s.heap.next + 2) = some (.str "value".toUTF8.toList) ∧
+    s'.heap.get a = some (.table cap (e₀ :: rest)) ∧ Grown s s' ∧ s'.guards = s.guards := by
+  intro i e
+  obtain ⟨s₁, hcore, rfl⟩ := minmaxBody_ok hit ha hok
+  obtain ⟨h1, h2, h3, h4, h5, h6, h7, hG, hgu⟩ :=
+    minmaxCore_spec isMin (s := { s with guards := rowGuards (e₀ :: rest) ++ s.guards }) hf hkf hit ha hcb hcore
+  obtain ⟨hG', hgu'⟩ := Grown.unrow hf hG hgu
+  exact ⟨h1, h2, h3, h4, h5, h6, h7, hG', hgu'⟩
 
 /-- `r` is a NEW row table `{"key": e.1, "value": e.2}` (three new objects: the table and the two
     key strings) and the machine is otherwise unchanged (`Grown`: live stack, frames, globals,
@@ -889,8 +994,9 @@ def sortTail (kd : List (Val × Val × Val)) (h : Heap) : M Val := do
   dropGuard out
   return .obj out
 
-/-- the body of `__sort`, loop bodies named -/
-def sortBody (re : Reenter) : M Val := do
+/-- `__sort` without the guards of the copied rows: what runs between `guardRows es` and
+    `unguardRows es` (up to the place of the final `dropGuard out`, see `sortBody_ok`) -/
+def sortCore (re : Reenter) : M Val := do
   let h := (← get).heap
   let keyFn ← peek 0
   let iterable ← peek 1
@@ -900,6 +1006,28 @@ def sortBody (re : Reenter) : M Val := do
     let kd ← forIn es [] (sortKeyStep re keyFn)
     let h := (← get).heap
     sortTail kd h
+
+/-- `sortTail`, with the guards of the copied rows released after those of the keys -/
+def sortTailG (es : List (Val × Val)) (kd : List (Val × Val × Val)) (h : Heap) : M Val := do
+  let out ← initTable
+  forIn (kd.mergeSort (sortLe h)) PUnit.unit (sortInsertStep out)
+  forIn kd PUnit.unit sortDropStep
+  unguardRows es
+  dropGuard out
+  return .obj out
+
+/-- the body of `__sort`, loop bodies named -/
+def sortBody (re : Reenter) : M Val := do
+  let h := (← get).heap
+  let keyFn ← peek 0
+  let iterable ← peek 1
+  match isTable h iterable with
+  | none => return iterable
+  | some es => do
+    guardRows es
+    let kd ← forIn es [] (sortKeyStep re keyFn)
+    let h := (← get).heap
+    sortTailG es kd h
 
 theorem callNativeBody_sort (re : Reenter) : callNativeBody re "__sort" = sortBody re := by
   unfold callNativeBody
@@ -950,6 +1078,46 @@ theorem guards_perm (ks : List Val) :
 theorem callKV_bind_eq {β : Type} (re : Reenter) (f k v : Val) (g : Val → M β) :
     (push v >>= fun _ => push k >>= fun _ => re f >>= g) = (callKV re f k v >>= g) := by
   simp [callKV, bind_assoc]
+
+/-- `sortTailG es` is `sortTail` followed by `unguardRows es` (erasures commute) -/
+theorem sortTailG_ok {es : List (Val × Val)} {kd : List (Val × Val × Val)} {h : Heap} {r : Val}
+    {t t' : VmState} (hok : (sortTailG es kd h).go t = (.ok r, t')) :
+    ∃ t₁, (sortTail kd h).go t = (.ok r, t₁) ∧ t' = { t₁ with guards := unrow es t₁.guards } := by
+  unfold sortTailG at hok
+  obtain ⟨out, ta, h1, hok⟩ := ok_bind hok
+  obtain ⟨_, tb, h2, hok⟩ := ok_bind hok
+  obtain ⟨_, tc, h3, hok⟩ := ok_bind hok
+  rw [go_bind_ok (go_unguardRows es tc), go_bind_ok (go_dropGuard out _), go_pure] at hok
+  simp only [Prod.mk.injEq, Except.ok.injEq] at hok
+  obtain ⟨rfl, rfl⟩ := hok
+  refine ⟨{ tc with guards := tc.guards.erase out }, ?_, ?_⟩
+  · unfold sortTail
+    rw [go_bind_ok h1, go_bind_ok h2, go_bind_ok h3, go_bind_ok (go_dropGuard out tc), go_pure]
+  · show ({ tc with guards := (unrow es tc.guards).erase out } : VmState) =
+      { tc with guards := unrow es (tc.guards.erase out) }
+    rw [unrow_erase_comm]
+
+/-- **the shape of `__sort` on a table**: `guardRows es`, then `sortCore`, then `unguardRows es` -/
+theorem sortBody_ok {re : Reenter} {s s' : VmState} {r : Val} {a cap : Nat} {es : List (Val × Val)}
+    (hit : s.stack.peekLast 1 = .obj a) (ha : s.heap.get a = some (.table cap es))
+    (hok : (sortBody re).go s = (.ok r, s')) :
+    ∃ s₁, (sortCore re).go { s with guards := rowGuards es ++ s.guards } = (.ok r, s₁) ∧
+      s' = { s₁ with guards := unrow es s₁.guards } := by
+  unfold sortBody at hok
+  rw [go_bind_ok (go_get s), go_bind_ok (go_peek 0 s), go_bind_ok (go_peek 1 s), hit] at hok
+  simp only [isTable_of_get ha] at hok
+  rw [go_bind_ok (go_guardRows _ s)] at hok
+  obtain ⟨kd, t1, h1, hok⟩ := ok_bind hok
+  rw [go_bind_ok (go_get t1)] at hok
+  obtain ⟨t2, h2, rfl⟩ := sortTailG_ok hok
+  refine ⟨t2, ?_, rfl⟩
+  unfold sortCore
+  rw [go_bind_ok (go_get _), go_bind_ok (go_peek 0 _), go_bind_ok (go_peek 1 _)]
+  dsimp only
+  rw [hit]
+  simp only [isTable_of_get ha]
+  rw [go_bind_ok h1, go_bind_ok (go_get t1)]
+  exact h2
 
 /-- a non-table argument is returned unchanged, and nothing happens -/
 theorem sort_non_table (re : Reenter) (s : VmState)
@@ -1080,17 +1248,16 @@ theorem sort_tail {φ : Val → Val → Val} {s t1 s' : VmState} {r : Val} {a ca
     the deep values of `φ k v` — provided the keys of the input table are flat and pairwise
     different (the table invariant); the input table and everything else reachable before is
     unchanged and no guard is leaked. -/
-theorem sort_spec (re : Reenter) {φ : Val → Val → Val} {s s' : VmState} {r keyFn : Val}
+theorem sortCore_spec (re : Reenter) {φ : Val → Val → Val} {s s' : VmState} {r keyFn : Val}
     {a cap : Nat} {es : List (Val × Val)}
     (hf : FreshNext s.heap) (hkf : s.stack.peekLast 0 = keyFn) (hit : s.stack.peekLast 1 = .obj a)
     (ha : s.heap.get a = some (.table cap es)) (hcb : PureCallback re keyFn φ)
     (hflat : ∀ e ∈ es, FlatKey s.heap e.1) (hdist : (es.map (fun e => ownD s.heap e.1)).Nodup)
-    (hok : (callNativeBody re "__sort").go s = (.ok r, s')) :
+    (hok : (sortCore re).go s = (.ok r, s')) :
     r = .obj s.heap.next ∧ s.heap.get s.heap.next = none ∧
     (∃ cap', s'.heap.get s.heap.next = some (.table cap' (sortedEntries φ s.heap es))) ∧
     s'.heap.get a = some (.table cap es) ∧ Grown s s' ∧ s'.guards = s.guards := by
-  rw [callNativeBody_sort] at hok
-  unfold sortBody at hok
+  unfold sortCore at hok
   rw [go_bind_ok (go_get s), go_bind_ok (go_peek 0 s), go_bind_ok (go_peek 1 s), hit, hkf] at hok
   simp only [isTable_of_get ha] at hok
   obtain ⟨kd, t1, hloop1, hok⟩ := ok_bind hok
@@ -1126,6 +1293,26 @@ theorem sort_spec (re : Reenter) {φ : Val → Val → Val} {s s' : VmState} {r 
     (by rw [hheap1]) hok
   rw [hheap1] at hr hnone hout
   exact ⟨hr, hnone, hout, hin, hG, hgu⟩
+
+/-- **`__sort`** (`sortCore_spec` between `guardRows` and `unguardRows`): for a callback behaving
+    like `φ`, the result is a NEW table whose entry list is `sortedEntries φ s.heap es`, provided the
+    keys of the input table are flat and pairwise different (the table invariant); the input table
+    and everything else reachable before is unchanged and no guard is leaked. -/
+theorem sort_spec (re : Reenter) {φ : Val → Val → Val} {s s' : VmState} {r keyFn : Val}
+    {a cap : Nat} {es : List (Val × Val)}
+    (hf : FreshNext s.heap) (hkf : s.stack.peekLast 0 = keyFn) (hit : s.stack.peekLast 1 = .obj a)
+    (ha : s.heap.get a = some (.table cap es)) (hcb : PureCallback re keyFn φ)
+    (hflat : ∀ e ∈ es, FlatKey s.heap e.1) (hdist : (es.map (fun e => ownD s.heap e.1)).Nodup)
+    (hok : (callNativeBody re "__sort").go s = (.ok r, s')) :
+    r = .obj s.heap.next ∧ s.heap.get s.heap.next = none ∧
+    (∃ cap', s'.heap.get s.heap.next = some (.table cap' (sortedEntries φ s.heap es))) ∧
+    s'.heap.get a = some (.table cap es) ∧ Grown s s' ∧ s'.guards = s.guards := by
+  rw [callNativeBody_sort] at hok
+  obtain ⟨s₁, hcore, rfl⟩ := sortBody_ok hit ha hok
+  obtain ⟨h1, h2, h3, h4, hG, hgu⟩ :=
+    sortCore_spec re (s := { s with guards := rowGuards es ++ s.guards }) hf hkf hit ha hcb hflat hdist hcore
+  obtain ⟨hG', hgu'⟩ := Grown.unrow hf hG hgu
+  exact ⟨h1, h2, h3, h4, hG', hgu'⟩
 
 /-! ## non-vacuity: a callback satisfying `PureCallback`, and concrete runs -/
 
@@ -1233,6 +1420,29 @@ example : (match (callNativeBody (idealCallback fun _ v => v) "__to_array").go d
         entriesAre s' 2 [(.int 11, .int 10), (.int 13, .int 10), (.int 12, .int 20), (.int 10, .int 30)]
     | _ => false)
 
+/-- a table with STRING keys `{"a": 30, "b": 10}`, on a machine that already holds guards on the
+    key strings (one of them twice): `guardRows` / `unguardRows` add and release further
+    occurrences of the same addresses -/
+def demoHeapS : Heap :=
+  { objs := [(1, .table 8 [(.obj 2, .int 30), (.obj 3, .int 10)]), (2, .str [97]), (3, .str [98])],
+    next := 4 }
+def demo3 : VmState :=
+  { VmState.fresh { stackSize := 16 } with
+    stack := ⟨2, [.obj 1, .nil] ++ List.replicate 14 .nil⟩, heap := demoHeapS, guards := [3, 2, 3] }
+
+/-- the guards of the copied rows: last row first; releasing them gives back EXACTLY the list
+    before (not only a permutation), also when the same addresses occur in it -/
+example : rowGuards [(.obj 5, .obj 6), (.int 1, .obj 7)] = [7, 6, 5] := by decide
+example : unrow [(.obj 5, .obj 5), (.int 1, .obj 7)]
+    (rowGuards [(.obj 5, .obj 5), (.int 1, .obj 7)] ++ [7, 5, 9]) = [7, 5, 9] := by decide
+example : (match (callNativeBody (idealCallback fun _ v => v) "__min").go demo3 with
+    | (.ok (.obj 4), s') => rowIs s' 4 (.obj 3) (.int 10) && s'.guards == [3, 2, 3]
+    | _ => false) = true := by decide +kernel
+#guard (match (callNativeBody (idealCallback fun _ v => v) "__sort").go demo3 with
+    | (.ok (.obj 4), s') =>
+        entriesAre s' 4 [(.obj 3, .int 10), (.obj 2, .int 30)] && s'.guards == [3, 2, 3]
+    | _ => false)
+
 /-! ## (b′), (c′) callbacks that allocate
 
 `GcCallback` (`Lemmas/NativeLemmas.lean`) lets the callback allocate and collect: everything
@@ -1273,12 +1483,12 @@ theorem mergeSort_congr {α : Type} {l : List α} {r r' : α → α → Bool}
   simpa using this
 
 /-- `__min` / `__max` with an allocating callback -/
-theorem minmaxBody_spec_gc (isMin : Bool) {re : Reenter} {φ : Val → Val → Val} {s s' : VmState}
+theorem minmaxCore_spec_gc (isMin : Bool) {re : Reenter} {φ : Val → Val → Val} {s s' : VmState}
     {r keyFn : Val} {a cap : Nat} {e₀ : Val × Val} {rest : List (Val × Val)}
     (hf : FreshNext s.heap) (hkf : s.stack.peekLast 0 = keyFn) (hit : s.stack.peekLast 1 = .obj a)
     (ha : s.heap.get a = some (.table cap (e₀ :: rest))) (hcb : GcCallback re keyFn φ)
     (hkeys : ∀ e ∈ e₀ :: rest, StableKey s (φ e.1 e.2))
-    (hok : (minmaxBody isMin re).go s = (.ok r, s')) :
+    (hok : (minmaxCore isMin re).go s = (.ok r, s')) :
     let i := argBest (better isMin s.heap) (keysOf φ (e₀ :: rest))
     let e := (e₀ :: rest).getD i (.nil, .nil)
     ∃ row, s.heap.next ≤ row ∧
@@ -1290,7 +1500,7 @@ theorem minmaxBody_spec_gc (isMin : Bool) {re : Reenter} {φ : Val → Val → V
     s'.heap.get a = some (.table cap (e₀ :: rest)) ∧ Grown s s' ∧ s'.guards = s.guards := by
   intro i e
   obtain ⟨k0, v0⟩ := e₀
-  unfold minmaxBody at hok
+  unfold minmaxCore at hok
   rw [go_bind_ok (go_get s), go_bind_ok (go_peek 0 s), go_bind_ok (go_peek 1 s), hit, hkf] at hok
   simp only [isTable_of_get ha] at hok
   rw [go_callKV_bind] at hok
@@ -1356,6 +1566,36 @@ theorem minmaxBody_spec_gc (isMin : Bool) {re : Reenter} {φ : Val → Val → V
       refine ⟨_, hstep.1.symm, ?_, hstep.2 ▸ hG', hstep.2 ▸ (hgu'.trans hgu), hsk⟩
       rw [htake, scan_snoc, ← hst, if_neg hb]
 
+theorem StableKey.grown {s t : VmState} (hG : Grown s t) {v : Val} (h : StableKey s v) :
+    StableKey t v := fun b hb => by
+  obtain ⟨hr, o, ho, hno⟩ := h b hb
+  exact ⟨hG.reach hr, o, hG.keep b o hr ho, hno⟩
+
+/-- `__min` / `__max` with an allocating callback (`minmaxCore_spec_gc` between `guardRows` and
+    `unguardRows`) -/
+theorem minmaxBody_spec_gc (isMin : Bool) {re : Reenter} {φ : Val → Val → Val} {s s' : VmState}
+    {r keyFn : Val} {a cap : Nat} {e₀ : Val × Val} {rest : List (Val × Val)}
+    (hf : FreshNext s.heap) (hkf : s.stack.peekLast 0 = keyFn) (hit : s.stack.peekLast 1 = .obj a)
+    (ha : s.heap.get a = some (.table cap (e₀ :: rest))) (hcb : GcCallback re keyFn φ)
+    (hkeys : ∀ e ∈ e₀ :: rest, StableKey s (φ e.1 e.2))
+    (hok : (minmaxBody isMin re).go s = (.ok r, s')) :
+    let i := argBest (better isMin s.heap) (keysOf φ (e₀ :: rest))
+    let e := (e₀ :: rest).getD i (.nil, .nil)
+    ∃ row, s.heap.next ≤ row ∧
+    i < (e₀ :: rest).length ∧ r = .obj row ∧ s.heap.get row = none ∧
+    (∃ cap', s'.heap.get row =
+      some (.table cap' [(.obj (row + 1), e.1), (.obj (row + 2), e.2)])) ∧
+    s'.heap.get (row + 1) = some (.str "key".toUTF8.toList) ∧
+    s'.heap.get (row + 2) = some (.str "value".toUTF8.toList) ∧
+    s'.heap.get a = some (.table cap (e₀ :: rest)) ∧ Grown s s' ∧ s'.guards = s.guards := by
+  intro i e
+  obtain ⟨s₁, hcore, rfl⟩ := minmaxBody_ok hit ha hok
+  obtain ⟨row, h0, h1, h2, h3, h4, h5, h6, h7, hG, hgu⟩ :=
+    minmaxCore_spec_gc isMin (s := { s with guards := rowGuards (e₀ :: rest) ++ s.guards }) hf hkf hit ha hcb
+      (fun e he => (hkeys e he).grown (Grown.rows s hf _)) hcore
+  obtain ⟨hG', hgu'⟩ := Grown.unrow hf hG hgu
+  exact ⟨row, h0, h1, h2, h3, h4, h5, h6, h7, hG', hgu'⟩
+
 /-- `RowResult` with the new row at an address `row ≥ s.heap.next` -/
 structure RowResultAt (s s' : VmState) (r : Val) (e : Val × Val) (row : Nat) : Prop where
   ge : s.heap.next ≤ row
@@ -1410,18 +1650,17 @@ theorem max_spec_gc (re : Reenter) {φ : Val → Val → Val} {s s' : VmState} {
 
 /-- **`__sort` with an allocating callback**: the output table is at some address
     `out ≥ s.heap.next`; otherwise as `sort_spec` -/
-theorem sort_spec_gc (re : Reenter) {φ : Val → Val → Val} {s s' : VmState} {r keyFn : Val}
+theorem sortCore_spec_gc (re : Reenter) {φ : Val → Val → Val} {s s' : VmState} {r keyFn : Val}
     {a cap : Nat} {es : List (Val × Val)}
     (hf : FreshNext s.heap) (hkf : s.stack.peekLast 0 = keyFn) (hit : s.stack.peekLast 1 = .obj a)
     (ha : s.heap.get a = some (.table cap es)) (hcb : GcCallback re keyFn φ)
     (hkeys : ∀ e ∈ es, StableKey s (φ e.1 e.2))
     (hflat : ∀ e ∈ es, FlatKey s.heap e.1) (hdist : (es.map (fun e => ownD s.heap e.1)).Nodup)
-    (hok : (callNativeBody re "__sort").go s = (.ok r, s')) :
+    (hok : (sortCore re).go s = (.ok r, s')) :
     ∃ out, s.heap.next ≤ out ∧ r = .obj out ∧ s.heap.get out = none ∧
     (∃ cap', s'.heap.get out = some (.table cap' (sortedEntries φ s.heap es))) ∧
     s'.heap.get a = some (.table cap es) ∧ Grown s s' ∧ s'.guards = s.guards := by
-  rw [callNativeBody_sort] at hok
-  unfold sortBody at hok
+  unfold sortCore at hok
   rw [go_bind_ok (go_get s), go_bind_ok (go_peek 0 s), go_bind_ok (go_peek 1 s), hit, hkf] at hok
   simp only [isTable_of_get ha] at hok
   obtain ⟨kd, t1, hloop1, hok⟩ := ok_bind hok
@@ -1462,6 +1701,26 @@ theorem sort_spec_gc (re : Reenter) {φ : Val → Val → Val} {s s' : VmState} 
     rw [ownD_stable G1 (hst x hx), ownD_stable G1 (hst y hy)]
   obtain ⟨hr, -, hle, hout, hin, hG, hgu⟩ := sort_tail hra ha hflat hdist hkd G1 hgu1 hsort hok
   exact ⟨t1.heap.next, hle, hr, get_none_of_ge hf hle, hout, hin, hG, hgu⟩
+
+/-- **`__sort` with an allocating callback** (`sortCore_spec_gc` between `guardRows` and
+    `unguardRows`): the output table is at some address `out ≥ s.heap.next`; otherwise as `sort_spec` -/
+theorem sort_spec_gc (re : Reenter) {φ : Val → Val → Val} {s s' : VmState} {r keyFn : Val}
+    {a cap : Nat} {es : List (Val × Val)}
+    (hf : FreshNext s.heap) (hkf : s.stack.peekLast 0 = keyFn) (hit : s.stack.peekLast 1 = .obj a)
+    (ha : s.heap.get a = some (.table cap es)) (hcb : GcCallback re keyFn φ)
+    (hkeys : ∀ e ∈ es, StableKey s (φ e.1 e.2))
+    (hflat : ∀ e ∈ es, FlatKey s.heap e.1) (hdist : (es.map (fun e => ownD s.heap e.1)).Nodup)
+    (hok : (callNativeBody re "__sort").go s = (.ok r, s')) :
+    ∃ out, s.heap.next ≤ out ∧ r = .obj out ∧ s.heap.get out = none ∧
+    (∃ cap', s'.heap.get out = some (.table cap' (sortedEntries φ s.heap es))) ∧
+    s'.heap.get a = some (.table cap es) ∧ Grown s s' ∧ s'.guards = s.guards := by
+  rw [callNativeBody_sort] at hok
+  obtain ⟨s₁, hcore, rfl⟩ := sortBody_ok hit ha hok
+  obtain ⟨out, h0, h1, h2, h3, h4, hG, hgu⟩ :=
+    sortCore_spec_gc re (s := { s with guards := rowGuards es ++ s.guards }) hf hkf hit ha hcb
+      (fun e he => (hkeys e he).grown (Grown.rows s hf _)) hflat hdist hcore
+  obtain ⟨hG', hgu'⟩ := Grown.unrow hf hG hgu
+  exact ⟨out, h0, h1, h2, h3, h4, hG', hgu'⟩
 
 /-- non-vacuity: a callback that allocates (and immediately abandons) a string on every call -/
 def garbageCallback (φ : Val → Val → Val) : Reenter := fun _ => do
